@@ -162,3 +162,58 @@ func auditField(p *eng.Prog, role string) string {
 	}
 	return found
 }
+
+// dbTypeName returns the actual name of an unexported type of package db
+// playing a role: "wrapped" is the struct marshalled into the file (the only
+// struct with two []byte fields and an integer version), "persist" the struct
+// holding the map of secrets that is encrypted into it.
+func dbTypeName(p *eng.Prog, role string) string {
+	tp := p.TypesPkg("db")
+	if tp == nil {
+		return role
+	}
+	found, n := role, 0
+	for _, name := range tp.Scope().Names() {
+		tn, ok := tp.Scope().Lookup(name).(*types.TypeName)
+		if !ok || tn.Exported() {
+			continue
+		}
+		st, ok := tn.Type().Underlying().(*types.Struct)
+		if !ok {
+			continue
+		}
+		bytesF, intF, secretsF := 0, 0, 0
+		for i := 0; i < st.NumFields(); i++ {
+			t := st.Field(i).Type()
+			switch u := t.Underlying().(type) {
+			case *types.Slice:
+				if types.Identical(u.Elem(), types.Typ[types.Byte]) {
+					bytesF++
+				}
+			case *types.Basic:
+				if u.Info()&types.IsInteger != 0 {
+					intF++
+				}
+			case *types.Map:
+				if pt, isP := u.Elem().(*types.Pointer); isP && eng.IsNamed(pt.Elem(), "db", "secret") {
+					secretsF++
+				}
+			}
+		}
+		match := false
+		switch role {
+		case "wrapped":
+			match = st.NumFields() == 3 && bytesF == 2 && intF == 1
+		case "persist":
+			match = st.NumFields() == 1 && secretsF == 1
+		}
+		if match {
+			found = name
+			n++
+		}
+	}
+	if n != 1 {
+		return role
+	}
+	return found
+}
